@@ -6,6 +6,7 @@
 mod util;
 mod c20;
 mod c02;
+mod c08;
 
 use std::io::Write;
 
@@ -26,6 +27,7 @@ fn main() {
     match prop {
         "C20" => c20::run(&mut out, tier, seed, corpus.as_deref()),
         "C02" => c02::run(&mut out, tier, seed, corpus.as_deref()),
+        "C08" => c08::run(&mut out, tier, seed, corpus.as_deref()),
         _ => {
             eprintln!("unknown property {prop}");
             std::process::exit(2);
